@@ -188,8 +188,29 @@ def yield_decoders(F):
     return out
 
 
+def helper_roles(F):
+    """private helpers of the histogram module by role: the scaling pair (f64 result computed as x * K / x / K with a constant K)
+    and the function that returns the shared bucket configuration"""
+    down, up, cfg = set(), set(), set()
+    for b in F.all_bodies(AG):
+        if "histogram" not in b.path or "::tests::" in b.path or b.kind != "Fn":
+            continue
+        out = b.d.get("output") or ""
+        if out == "f64":
+            ops = {s["rv"]["op"] for i in b.live_blocks() for s in b.stmts(i) if s["k"] == "assign" and s["rv"]["k"] == "binop"}
+            if ops == {"Div"}:
+                down.add(b.name)
+            elif ops == {"Mul"}:
+                up.add(b.name)
+        if out.startswith("histogram::") and out.endswith("Config"):
+            cfg.add(b.name)
+    return down, up, cfg
+
+
 def run(ctx):
     F = ctx.facts("dbg")
+    SCALE_DOWN, SCALE_UP, CONFIG_FN = helper_roles(F)
+    ctx.floor("R11.2", "scaling helpers and shared bucket configuration (by role)", len(SCALE_DOWN) + len(SCALE_UP) + len(CONFIG_FN), 3)
     caps = [b for b in F.all_bodies(AG) if "histogram" in b.path and "::tests::" not in b.path and b.kind == "AssocFn" and
             any(c.name == "record_many" and "AggregationStrategy" in (c.trait or "") for c in b.calls()) and
             any(c.name == "record" for c in b.calls())]
@@ -291,12 +312,12 @@ def run(ctx):
                         to = pr.operand(flds["total"])
                         occ_ok = all(x[0] in ("via",) or (x[0] == "call" and cb.term(x[1])["callee"]["name"] == "count") for x in oo) and bool(oo)
                         tot_calls = sorted({cb.term(x[1])["callee"]["name"] for x in to if x[0] == "call"})
-                        msum = (occ_ok, tuple(n for n in tot_calls if n in ("scale_down", "count", "midpoint", "range", "start", "end")), ("op", "Mul") in to)
+                        msum = (occ_ok, tuple(("scale_down" if n in SCALE_DOWN else n) for n in tot_calls if n in SCALE_DOWN or n in ("count", "midpoint", "range", "start", "end")), ("op", "Mul") in to)
         ctx.check(fsum == ("keep-iff-count>0", True, 0), "R11.1", key + "#keeps-non-empty-buckets", loc(b), "drain keeps buckets by %s, expected exactly those with bucket.count() > 0" % (fsum,))
         ctx.check(msum is not None and msum[0], "R11.1", key + "#occurrences-from-bucket-count", loc(b), "emitted occurrences do not derive solely from Bucket::count() (%s)" % (msum,))
         ctx.check(msum is not None and "scale_down" in msum[1] and "count" in msum[1] and msum[2], "R11.1", key + "#total-is-scaled-midpoint-times-count", loc(b),
                   "emitted total is not scale_down(midpoint) * count: %s" % (msum,))
-        cfg = reaches_call(F, b, lambda c: c.name == "default_histogram_config", depth=1)
+        cfg = reaches_call(F, b, lambda c: c.name in CONFIG_FN, depth=1)
         dsum[b.path] = (fsum, msum)
     if len(dsum) == 2:
         a, b_ = list(dsum.items())
@@ -308,7 +329,7 @@ def run(ctx):
     for b in rms:
         pr = Prov(b)
         adds = [c for c in b.calls() if c.name == "add" and c.def_.startswith("histogram::")]
-        sc = [c for c in b.calls() if c.name == "scale_up"]
+        sc = [c for c in b.calls() if c.name in SCALE_UP]
         ok = len(adds) == 1 and len(sc) == 1
         s = None
         if ok:
@@ -346,13 +367,13 @@ def run(ctx):
         ctx.check(okm, "R11.3", fnkey(b) + "#merges-on-exact-equality", loc(b),
                   "sort-and-merge groups observations by something else than exact equality (%s): distinct recorded values would be reported as one" % why)
     # same configuration everywhere
-    cfgs = F.callers_of("default_histogram_config", crates=[AG])
+    cfgs = [c for b_ in F.all_bodies(AG) for c in b_.calls() if c.name in CONFIG_FN and c.def_.startswith(AG)]
     users = sorted({c.body.path.split("::tests::")[0] for c in cfgs if "::tests::" not in c.body.path})
     ctx.check(any("AtomicExponential" in u for u in users) and any("ExponentialAggregationStrategy" in u and "Atomic" not in u for u in users), "R11.2", "exponential-strategies#same-bucket-configuration", "",
               "atomic and non-atomic strategies are not both configured by default_histogram_config(): %s" % users, "users: %d" % len(users))
     withcfg = [c for b in F.all_bodies(AG) if "::tests::" not in b.path and "histogram" in b.path for c in b.calls() if c.name == "with_config" and c.def_.startswith("histogram::")]
     for c in withcfg:
         o = Prov(c.body).operand(c.args[0])
-        ctx.check(any(x[0] == "call" and c.body.term(x[1])["callee"]["name"] == "default_histogram_config" for x in o), "R11.2", fnkey(c.body) + "#uses-default-config", loc(c.body, c.bb),
+        ctx.check(any(x[0] == "call" and c.body.term(x[1])["callee"]["name"] in CONFIG_FN for x in o), "R11.2", fnkey(c.body) + "#uses-default-config", loc(c.body, c.bb),
                   "a histogram is created with another configuration than default_histogram_config()")
     return EXPL
